@@ -148,8 +148,9 @@ def run(ctx):
         'tab/newline separated or doubly blank separated contents are not generated (the property is silent on them)',
         'a text that follows the mode word but is not a calendar date counts as "no opt-in date recorded"',
         'mode arguments given to SetMode are the three modes, clearly invalid words, and both with white space around them (a padded valid '
-        'mode may be rejected or taken without its padding); what follows an accepted SetMode is judged by the mode that was set; non-UTC '
-        'as-of times are not generated; SetMode on an unwritable (directory) mode file is not generated',
+        'mode may be rejected or taken without its padding); what follows an accepted SetMode is judged by the mode that was set; the date of '
+        'an as-of instant is its UTC date in whatever zone the instant is given (the mode file is read back as a UTC day and counter files begin at '
+        '00:00 UTC); SetMode on an unwritable (directory) mode file is not generated',
         'the library consults the mode when a process opens its counter file and at every rotation (Open / rotate1; no document promises more): '
         'one long-running process is driven through open, increments, mode changes and rotations past the recorded end, and once it has seen the '
         'mode off nothing it rotates or increments may reach the disk; increments made between the user turning telemetry off and the next '
@@ -274,6 +275,20 @@ def run(ctx):
                                             {'a': {'op': 'run', 'a': '', 'p': '', 'n1': 256, 'n2': 0, 'ok': True}, 'modeFile': ini_mf, 'day': E + 1, 'tod': 1},
                                             {'a': {'op': 'advance', 'a': '', 'p': '', 'n1': 0, 'n2': 0, 'ok': True}, 'modeFile': ini_mf, 'day': E + 9, 'tod': 1},
                                             {'a': {'op': 'run', 'a': '', 'p': '', 'n1': 256, 'n2': 0, 'ok': True}, 'modeFile': ini_mf, 'day': E + 9, 'tod': 1}]})
+    # directed histories for the calendar of the opt-in date: the user opts in at an instant given in UTC or in a zone far west / east of it,
+    # at the first or the last second of the UTC day D (so that the zone's own calendar shows the day before / after); a counter file that
+    # began at 00:00 UTC of D holds data from before that instant, one that began on D+1 does not; then the week ends and the uploader runs.
+    for zone in ('', 'west', 'east'):
+        for k in range(4):                     # the harness derives the second of the day from variant + step: 0 -> 00:00:00, 1 -> 23:59:59
+            for fileset in ([('pA', E - 4, E)], [('pA', E - 3, E)], [('pA', E - 4, E), ('pB', E - 3, E)]):
+                sid = len(scenarios)
+                stepsz = [{'a': {'op': 'set', 'a': 'on', 'p': '', 'tz': zone, 'n1': E - 4, 'n2': 0, 'ok': True}, 'modeFile': dict(NOINTENT), 'day': E - 4, 'tod': 1},
+                          {'a': {'op': 'advance', 'a': '', 'p': '', 'tz': '', 'n1': 0, 'n2': 0, 'ok': True}, 'modeFile': dict(NOINTENT), 'day': E + 1, 'tod': 1},
+                          {'a': {'op': 'run', 'a': '', 'p': '', 'tz': '', 'n1': 256, 'n2': 0, 'ok': True}, 'modeFile': dict(NOINTENT), 'day': E + 1, 'tod': 1}]
+                scenarios.append({'id': sid, 'src': 'directed-zone', 'w': 0, 'shift': 0, 'variant': 4 * sid + k, 'child': False,
+                                  'init': {'modeFile': {'k': 'text', 'w': 'local', 'd': NODATE, 'pad': False}, 'intent': dict(NOINTENT), 'day': E - 4, 'tod': 1,
+                                           'files': [{'p': p_, 'b': b_, 'e': e_, 'n': 1} for (p_, b_, e_) in fileset], 'local': [], 'ready': [], 'uploaded': [],
+                                           'requests': [], 'proc': dict(NOPROC)}, 'steps': stepsz})
     # directed histories of ONE long-running process (open under local/on, the user turns telemetry off, the rotation timer
     # fires after the recorded end, more increments; then on again)
     def stp(op, a='', n1=0, day=0, tod=1):
@@ -326,7 +341,7 @@ def run(ctx):
             behaviours += 1
 
     for W in ((ctx.seed % 7, (ctx.seed + 3) % 7) if not th else tuple(range(7))):
-        scfg = cfg(props=False, W=W, collectors=('c1', 'c2'), longprogs=('lp',), maxproc=5, setmodes=('on', 'off', 'local', 'auto', '', 'On'), setpads=PADS,
+        scfg = cfg(props=False, W=W, collectors=('c1', 'c2'), longprogs=('lp',), maxproc=5, setmodes=('on', 'off', 'local', 'auto', '', 'On'), setpads=PADS, setzones=('', 'east', 'west'),
                    setdays=(B - 1, B, B + 1, B + 2, B + 8, B + 9, B + 20), xs=(0, 300, 512, 513, 1023), rates=(0, 512, 1024),
                    maxrun=4, maxset=3, maxedit=2, maxcollect=4, maxadv=6)
         walks('Consent-sim-W%d' % W, 'MCConsentSim', m, scfg, W, nwalk // (2 if not th else 7), ctx.pick(16, 20))
@@ -334,7 +349,7 @@ def run(ctx):
     mp = mc('MCConsentSimProc', ['Absent', mf_tla('text', 'on', B - 2), mf_tla('text', 'off'), mf_tla('text', 'local', B), mf_tla('text', 'ON')], [[]], [rep([], [], [])],
             [(B, 1), (B + 1, 0)], sim_clock)
     for W in ((ctx.seed + 1) % 7,) if not th else (1, 4, 6):
-        pcfg2 = cfg(props=False, W=W, longprogs=('lp',), maxproc=7, setmodes=('on', 'off', 'local'), setpads=('', 'nl'), setdays=(B, B + 2, B + 9), xs=(0, 600), rates=(0, 512),
+        pcfg2 = cfg(props=False, W=W, longprogs=('lp',), maxproc=7, setmodes=('on', 'off', 'local'), setpads=('', 'nl'), setzones=('', 'west'), setdays=(B, B + 2, B + 9), xs=(0, 600), rates=(0, 512),
                     maxrun=2, maxset=4, maxedit=1, maxadv=5)
         walks('Consent-simproc-W%d' % W, 'MCConsentSimProc', mp, pcfg2, W, ctx.pick(60, 600), ctx.pick(16, 20))
     ctx.log('behaviours: %d' % behaviours)
